@@ -366,6 +366,47 @@ Proof.
   rewrite (Hab Ha). reflexivity.
 Qed.
 
+(* what a retry policy makes of a failed attempt is never a success *)
+Lemma retry_on_failure_not_success cfg pos c r w : pr_succ (fst (retry_on_failure cfg pos c r w)) = false.
+Proof.
+  unfold retry_on_failure. destruct (_ || _); [|reflexivity]. destruct (negb (r_return_last cfg)); reflexivity.
+Qed.
+
+(* a retry policy that gives up on a failed attempt (retries exceeded, max duration exceeded, abort) while the execution is
+   cancelled -- the cancellation having arrived after the loop's look at it, while the failure was handled (a slow failure
+   listener) -- reports the cancellation's result, not the failure (since the fix: commit for finding F17) *)
+Theorem retry_gives_up_cancelled_reports_cancellation cfg pos (inner : layer) fuel c w cr :
+  let r := fst (inner c w) in let w1 := snd (inner c w) in
+  let r2 := fst (retry_on_failure cfg pos c (with_failure r) w1) in
+  let w2 := snd (retry_on_failure cfg pos c (with_failure r) w1) in
+  is_canceled w1 c = None -> rs_exceeded (get_rstate w1 pos) = false ->
+  is_failure (r_fpol cfg) (pr_out r) = true -> pr_done r2 = true -> is_canceled w2 c = Some cr ->
+  retry_loop (S fuel) cfg pos inner c w = (cr, w2, 1%nat).
+Proof.
+  cbv zeta. cbn [retry_loop]. destruct (inner c w) as [r w1]. cbn [fst snd]. intros Hc He Hf Hd Hc2.
+  rewrite Hc, He, Hf.
+  pose proof (retry_on_failure_not_success cfg pos c (with_failure r) w1) as Hs.
+  destruct (retry_on_failure cfg pos c (with_failure r) w1) as [r2 w2]. cbn [fst snd] in *.
+  rewrite Hd, Hs, Hc2. reflexivity.
+Qed.
+
+(* ... and the same run without a cancellation returns the failure as the policy made it (ExceededError, or the last
+   outcome with ReturnLastFailure or on an abort) *)
+Theorem retry_gives_up_returns_failure cfg pos (inner : layer) fuel c w :
+  let r := fst (inner c w) in let w1 := snd (inner c w) in
+  let r2 := fst (retry_on_failure cfg pos c (with_failure r) w1) in
+  let w2 := snd (retry_on_failure cfg pos c (with_failure r) w1) in
+  is_canceled w1 c = None -> rs_exceeded (get_rstate w1 pos) = false ->
+  is_failure (r_fpol cfg) (pr_out r) = true -> pr_done r2 = true -> is_canceled w2 c = None ->
+  retry_loop (S fuel) cfg pos inner c w = (r2, w2, 1%nat).
+Proof.
+  cbv zeta. cbn [retry_loop]. destruct (inner c w) as [r w1]. cbn [fst snd]. intros Hc He Hf Hd Hc2.
+  rewrite Hc, He, Hf.
+  pose proof (retry_on_failure_not_success cfg pos c (with_failure r) w1) as Hs.
+  destruct (retry_on_failure cfg pos c (with_failure r) w1) as [r2 w2]. cbn [fst snd] in *.
+  rewrite Hd, Hs, Hc2. reflexivity.
+Qed.
+
 (* every execution starts with an empty retry ledger: budgets are never shared between executions *)
 Theorem retry_budget_is_per_execution now ext key b l k c script pos :
   get_rstate (fresh_world now ext key b l k c script) pos = {| rs_failed := 0; rs_exceeded := false |}.
